@@ -95,7 +95,16 @@ def classify(G, res, reach=False):
         if msg.startswith('aborting due to') or msg.startswith('For more information'):
             continue
         mine = os.path.basename(res.get('path', ''))
-        spans_here = [s for s in d.get('spans', []) if not mine or os.path.basename(s.get('file_name', '')) == mine]
+        def _resolve(sp):
+            # a span inside a macro expansion (panic!, assert!, ...) is attributed to the macro's call site in this file
+            hops = 0
+            while sp and mine and os.path.basename(sp.get('file_name', '')) != mine and sp.get('expansion') and hops < 8:
+                prim_flag = sp.get('is_primary')
+                sp = dict(sp['expansion']['span'], is_primary=prim_flag)
+                hops += 1
+            return sp
+        spans_here = [_resolve(s) for s in d.get('spans', [])]
+        spans_here = [s for s in spans_here if s and (not mine or os.path.basename(s.get('file_name', '')) == mine)]
         prim = [s for s in spans_here if s.get('is_primary')]
         allspans = spans_here
         low = msg.lower()
